@@ -93,14 +93,32 @@ impl C03 {
             }
         }
         // last valid latitude and a few representable values equatorward of it
-        for j in 0..6i64 {
-            let lat = f64::from_bits((lo.to_bits() as i64 - j * if j < 4 { 1 } else { 1000 }) as u64);
+        // the last valid latitude, 1-3 f64 steps inside, and 1e-12 .. 1e-4 deg inside
+        let inside = [0.0, 1e-12, 1e-10, 1e-8, 1e-7, 1e-6, 1e-5, 1e-4];
+        for j in 0..11i64 {
+            let lat = if j < 4 { f64::from_bits((lo.to_bits() as i64 - j * if lo > 0.0 { 1 } else { -1 }) as u64) } else { lo - sign * inside[(j - 3) as usize] };
             let mut c2 = c.clone();
             c2.site.lat = F(lat);
             c2.boundary_lat = None;
             self.check(&c2, st).map_err(|mut f| {
                 f.signature = format!("{}:at-existence-boundary", f.signature);
                 f.observed = format!("{} [latitude {:?} is {} f64 steps on the valid side of the {:?} existence boundary]", f.observed, lat, j, prayer);
+                f
+            })?;
+        }
+        // and just beyond the boundary (first invalid latitude, 1e-9 .. 1e-3 deg further): whatever is reported there
+        // must still satisfy the clauses (normally the entry is simply Invalid and nothing is asserted)
+        for (j, d) in [0.0, 1e-9, 1e-7, 1e-6, 1e-5, 1e-4, 3e-4, 1e-3].iter().enumerate() {
+            let lat = hi + sign * d;
+            if lat.abs() > 60.0 {
+                break;
+            }
+            let mut c2 = c.clone();
+            c2.site.lat = F(lat);
+            c2.boundary_lat = None;
+            self.check(&c2, st).map_err(|mut f| {
+                f.signature = format!("{}:beyond-existence-boundary", f.signature);
+                f.observed = format!("{} [latitude {:?}: step {} beyond the {:?} existence boundary]", f.observed, lat, j, prayer);
                 f
             })?;
         }
@@ -125,8 +143,10 @@ impl Prop for C03 {
             }),
             1 => (9.0..=21.0f64, 9.0..=21.0f64).prop_map(|(f, i)| (None, f, i)),
             1 => (prop_oneof![Just(9.0), Just(21.0), Just(15.0)], prop_oneof![Just(9.0), Just(21.0), Just(12.0)]).prop_map(|(f, i)| (None, f, i)),
+            // angles on a half-degree grid (exact coincidences such as Fajr angle + Imsaak angle == Isha angle)
+            1 => (18u32..=42, 18u32..=42).prop_map(|(f, i)| (None, f as f64 / 2.0, i as f64 / 2.0)),
         ];
-        let im = prop_oneof![2 => Just(1.5), 3 => 0.5..=3.0f64, 1 => prop_oneof![Just(0.5), Just(3.0)]];
+        let im = prop_oneof![2 => Just(1.5), 3 => 0.5..=3.0f64, 1 => prop_oneof![Just(0.5), Just(3.0)], 2 => (1u32..=6).prop_map(|x| x as f64 / 2.0)];
         (gen::site(60.0, 3.0), angles, im, (0.0..=1.0f64, 0.0..=1.0f64, 0.0..=1.0f64), gen::date())
             .prop_map(|(site, (method, f, i), im, (u1, u2, u3), date)| Case {
                 site,
